@@ -209,5 +209,33 @@ def run(F, rep, tier):
             rep.ok('R2.5', fn, 'arguments by value, forwarded to the builtin as is')
         else:
             rep.viol('R2.5', fn + '|by-value', '%s clones or borrows its arguments on the builtin fast path (by value %s, clones %d)' % (fn, byval, len(clones)), b.loc(0))
+    # ---------------- R2.6
+    rep.rule('R2.6', 'no second handle while writing in place: the closures that write a variable through set_index (in assign, assign_every, '
+             'assign_respecting_type, drop_lhs) never clone an Obj / Seq read from the cell they are about to write - a snapshot that is '
+             'alive across set_index makes Rc::make_mut copy the whole collection on every indexed assignment')
+    n26 = 0
+    for p_ in sorted(F.bodies_raw):
+        if '::promoted' in p_ or '{closure' not in p_:
+            continue
+        b_ = F.body(p_)
+        si = [c for c in b_.calls if c.target == 'eval::set_index']
+        if not si:
+            continue
+        n26 += 1
+        bad = []
+        for c in b_.calls:
+            if not re.search(r'<core::(Obj|Seq) as std::clone::Clone>::clone$', c.target):
+                continue
+            if not any(s_.bb in b_.reachable_from(c.bb) for s_ in si):
+                continue
+            rn = b_.root_names(c.args[0], through_calls=('try_borrow_nres', 'try_borrow_mut_nres', 'deref', 'branch', 'borrow', 'as_ref'))
+            cellish = [r for r in rn if r.startswith('call:core::try_borrow') or r.startswith('call:std::cell::RefCell') or (r.startswith('param:') and r not in ('param:', 'param:_1'))]
+            if cellish:
+                bad.append((c, cellish))
+        if bad:
+            rep.viol('R2.6', '%s|snapshot-before-write' % p_, '%s clones the current value of the variable (%s) and keeps the copy alive across set_index: the collection then has two owners and every `x[i] = v` on it copies all of it' % (p_, bad[0][1][0]), bad[0][0].loc())
+        else:
+            rep.ok('R2.6', p_, 'no clone of the cell content before set_index')
+    rep.floor('R2.6', 'write closures calling set_index', n26, 4)
     rep.undecided += ['bytes allocated as a function of n and k', 'copy-at-most-once-per-holder']
     return META
